@@ -67,7 +67,7 @@ func c08LoadConfig(security, allpost string) error {
 	defer os.Remove(file)
 	viper.Reset()
 	err := initgin.InitAllConfig(base + ".ini") // cwd is the scratch root: found through AddConfigPath(".")
-	logrus.SetLevel(logrus.PanicLevel)           // SERVICE_MODE DEV turns debug logging on
+	logrus.SetLevel(logrus.PanicLevel)          // SERVICE_MODE DEV turns debug logging on
 	if err != nil {
 		return err
 	}
